@@ -25,9 +25,9 @@ CHECKS = {
    "C13": dict(level="proof", technique="contract-based deductive verification (pyvc symbolic execution of the real primitives against a byte-map storage model, whole-buffer postconditions, z3/cvc5); library behaviour of bytearray/numpy as named assumed contracts; exhaustive small-scope native validation",
    text="Every byte-copy primitive of both CPU buffer classes (and update_from_xbuffer on both dispatch branches) is verified for all capacities, offsets and lengths: exactly the addressed bytes change to the source bytes, all other bytes, the length and the source are unchanged, extracted copies are fresh storage, typed views alias the buffer at the requested offset, update_from_nplike stores the C-order encoding for every source layout. The proof is relative to eight named axioms about bytearray/numpy slicing, copying, frombuffer, astype, .data and view (the bulk of the trusted base), which the bounded part validates exhaustively for capacity <= 10/14 and the dtype/layout lists.",
    note="Trusted: storage axioms of pyvc/storage.py (assumed contracts on dependencies), dtype conversion opaque; precondition: in-range offsets, one buffer class per context object.", ref="5 C13, 4.5"),
-   "C14": dict(level="exploration", technique="bounded stand-in: run-time contract of topological_sort/sort_classes evaluated on the real functions over an exhaustive small scope (deductive obligations for the no-dup invariant planned, not built)",
-   text="Contract no-duplicate / complete / parents-first / has_cycle-iff-cyclic checked on the real topological_sort for every source dict over <= 3 nodes (all key orders, parent sequences with repeats and self-loops) and a slice of the 4-node ones; sort_classes and add_kernels on real class graphs of every kind (fieldless structs with dependents, arrays, refs, unions, _depends_on, cycles) for several root orders, including compilation. Bounded, not proved.",
-   note="Not a proof: small-scope exhaustive enumeration; trusted: DFS cycle oracle, host compiler.", ref="5 C14"),
+   "C14": dict(level="other", technique="contract-based deductive verification of the no-duplicate clause (pyvc: symbolic dict/list model of topological_sort, four loop invariants, z3/cvc5); bounded run-time contract for order, cycle reporting and compilation",
+   text="Proved for every dependency graph: the list returned by the real topological_sort contains no node twice when no cycle is reported (invariants: counters non-negative and positive only for keys with parents; listed nodes are pairwise distinct and have no open parent, a child is appended only when its counter goes 1->0). 'Before first use', 'cycles are reported' and 'the emitted source compiles' are decided by the bounded part only: all graphs over <= 3 nodes plus a slice of 4-node graphs, and real class graphs of every kind (fieldless structs with dependents, arrays, refs, unions, _depends_on incl. hybrid classes, cycles) with compilation.",
+   note="Mixed level: one clause proved, the others bounded. Trusted: pyvc, comprehension/dict-key semantics, DFS cycle oracle, host compiler.", ref="5 C14"),
    "C01": dict(level="exploration", technique="bounded stand-in: run-time contracts on real objects of a grammar slice (documented-layout decoder as oracle, poisoned buffers, views vs handles, misuse catalogue); deductive obligations on the underlying layout functions are being added (see evidence)",
    text="Read-back through every accessor equals the constructor argument. Decided in this version by the bounded native part only: types of the grammar slice x generated values x input forms x placements with allocation history; every byte of the buffer is compared. Labelled bounded, never counted as proved.",
    note="Not a proof. Trusted: checks/layoutdec.py (decoder written from the docs). Known findings are listed in known_findings.json.", ref="5 C01, 4.3"),
